@@ -166,6 +166,8 @@ int main(int argc, char **argv){
   misuse("updateSequenceGrid(on a grid that is not Sequence)", [&]{ grid.updateSequenceGrid(3, type_level, std::vector<int>(), std::vector<int>()); }, !grid.isSequence());
   misuse("updateFourierGrid(on a grid that is not Fourier)", [&]{ grid.updateFourierGrid(3, type_level, std::vector<int>(), std::vector<int>()); }, !grid.isFourier());
   misuse("updateGrid(on a local polynomial / wavelet / empty grid)", [&]{ grid.updateGrid(3, type_level, std::vector<int>(), std::vector<int>()); }, empty || local);
+  misuse("updateGrid(on a local polynomial / wavelet grid, valid limits)", [&]{ grid.updateGrid(3, type_level, std::vector<int>(), oklim); }, !empty && local);
+  misuse("updateGrid(depth = -1, valid limits)", [&]{ grid.updateGrid(-1, type_level, std::vector<int>(), oklim); }, !empty && !local && !constructing);
   misuse("updateGrid(depth = -1)", [&]{ grid.updateGrid(-1, type_level, std::vector<int>(), std::vector<int>()); }, !empty && !local && !constructing);
   misuse("updateGrid(weights of wrong size)", [&]{ grid.updateGrid(3, type_level, badw, std::vector<int>()); }, !empty && !local && !constructing);
   misuse("updateGrid(limits of wrong size)", [&]{ grid.updateGrid(3, type_level, okw, badlim); }, !empty && !local && !constructing);
